@@ -35,7 +35,7 @@ if args[:1] == ["--confirm-from"]:
             subprocess.run(["git", "-C", "/repo", "worktree", "remove", "--force", wt], capture_output=True)
         print(i, "CONFIRMED" if ok else "REJECTED", ran, flush=True)
         if ok:
-            dst = os.path.join(H, "H-" + i)
+            dst = os.path.join(H, os.environ.get("HPREFIX", "H-") + i)
             os.makedirs(dst, exist_ok=True)
             for f in ("patch.diff", "equiv.py"):
                 shutil.copy(os.path.join(d, f), dst)
